@@ -5,6 +5,8 @@ import JSight.LoaderTreeDup
 import JSight.AstTextThm
 import JSight.AstTextTree
 import JSight.AnnotExamples
+import JSight.ATreeStrip
+import JSight.ATreeExamples
 /-!
 # C16 — GetAST mirrors the schema text: the decision logic that is a theorem
 
@@ -257,5 +259,35 @@ example : (match AstText.astB Loader.sampleBT ([], false) with
       tok == "object" && k1 == [97, 10] && t1 == "array" && t13 == "number" && v13 == [45, 48, 46, 53, 48]
         && k2 == [195, 169] && t2 == "object"
     | _ => false) = true := by decide +kernel
+
+end Props.C16
+
+namespace Props.C16
+
+/-! ## the AST of an annotated tree (work package c13tree)
+
+`AstText.astOfText` builds the AST from the loader's state: the node table AND, for rule values, the source spans the table
+points to and the event list (`astOfTable src (eventsOf bs) st`). The full statement — the AST is a function of `t.strip` — is
+`C16_ast_of_annotated_tree_full`; what is proved: the AST of the text of a well-formed annotated tree is `astOfTable` of a
+loader state whose table, read against the text, is `t.table` (the annotation of every node bound to that node). -/
+
+open AT in
+/-- the full statement (NOT proved): two surface forms of one annotated tree have the same AST -/
+def C16_ast_of_annotated_tree_full : Prop :=
+  ∀ (w0 w0' : Gap) (t t' : ATree) (w1 w1' : Gap), t.strip = t'.strip → t.isContainer = true → lineOK w0 t = true →
+    lineOK w0' t' = true → TokOK (docToks w0 t w1) → TokOK (docToks w0' t' w1') →
+    AstText.astOfText (docText w0 t w1) = AstText.astOfText (docText w0' t' w1')
+
+open AT in
+/-- as far as it goes: the AST of an annotated tree's text is built from a loader state with the tree's table -/
+theorem C16_ast_of_annotated_tree (w0 : Gap) (t : ATree) (w1 : Gap) (hc : t.isContainer = true)
+    (hl : lineOK w0 t = true) (hw : TokOK (docToks w0 t w1)) :
+    ∃ st, AstText.astOfText (docText w0 t w1)
+        = AstText.astOfTable (docText w0 t w1).toArray (AstText.eventsOf (docText w0 t w1)) st ∧
+      st.root = some 0 ∧ abstractOf (docText w0 t w1).toArray st = t.table := by
+  obtain ⟨st, h1, h2, h3⟩ := AT.tree_loads w0 t w1 hc hl hw
+  exact ⟨st, by simp only [AstText.astOfText, h1], h2, h3⟩
+
+example := C16_ast_of_annotated_tree [] AT.Ex.t1 [] rfl AT.Ex.t1_line AT.Ex.t1_tok
 
 end Props.C16
